@@ -1,6 +1,6 @@
 (* Extract.v -- extraction of the executable models to OCaml (ExtrOcamlBasic only). *)
 From Coq Require Import Extraction ExtrOcamlBasic.
-From PV Require Import Num Model_core Entry.
+From PV Require Import Num Model_core Entry_core.
 From PV.gen Require Import Gen_core.
 Extraction Language OCaml.
-Extraction "model.ml" run_derivs run_kderivs.
+Extraction "model_core.ml" run_derivs run_kderivs.
